@@ -264,6 +264,37 @@ fn assoc_case(c: &(String, Arc<PcSaftParameters>, f64, f64), rec: &mut Rec) {
     cmp!(s.derive3(Derivative::DT), "dT3", v3);
 }
 
+/// a single self-complementary C site obeys the same mass-action law as one A and one B site of equal strength
+/// (X = 1/(1 + rho X Delta)), so its association energy is exactly half of the 1A/1B energy. The C-site branch and the
+/// A/B branch are separate code in the generic association term and in SAFT-VR Mie.
+fn csite_case(c: &(String, f64, f64), rec: &mut Rec) {
+    let (model, tf, eta) = c;
+    let x = arr1(&[1.0]);
+    let build = |na: Option<f64>, nb: Option<f64>, nc: Option<f64>, assoc: bool| -> Arc<ResidualModel> {
+        match model.as_str() {
+            "pcsaft" => {
+                let r = PcSaftRecord::new(1.5255, 3.23, 188.9, None, None, if assoc { Some(0.035176) } else { None }, if assoc { Some(2899.5) } else { None }, na, nb, nc, None, None, None);
+                Arc::new(ResidualModel::PcSaft(PcSaft::new(Arc::new(PcSaftParameters::new_pure(PureRecord::new(Identifier::default(), 32.04, r)).unwrap()))))
+            }
+            _ => {
+                let r = if assoc { SaftVRMieRecord::new(1.5283, 3.3063, 167.72, 8.6556, 6.0, Some(0.41314), Some(2904.7), na, nb, nc, None, None, None) } else { SaftVRMieRecord::new_simple(1.5283, 3.3063, 167.72, 8.6556, 6.0) };
+                Arc::new(ResidualModel::SaftVRMie(SaftVRMie::new(Arc::new(SaftVRMieParameters::new_pure(PureRecord::new(Identifier::default(), 32.026, r)).unwrap()))))
+            }
+        }
+    };
+    let none = build(None, None, None, false);
+    let ab = build(Some(1.0), Some(1.0), None, true);
+    let cc = build(None, None, Some(1.0), true);
+    let rmax = none.max_density(Some(&Moles::from_reduced(x.clone()))).unwrap().to_reduced();
+    let (t, v) = (750.0 * tf, 1.0 / (rmax * eta));
+    let (p0, pab, pc) = (props(&none, t, v, &x), props(&ab, t, v, &x), props(&cc, t, v, &x));
+    for ((a0, aab), ac) in p0.iter().zip(pab.iter()).zip(pc.iter()) {
+        let (d_ab, d_c) = (aab.1 - a0.1, ac.1 - a0.1);
+        let lim = 1e-9 * d_ab.abs().max(d_c.abs()) + 1e-12 * a0.1.abs().max(aab.2) + 1e-300;
+        rec.check("csite_is_half_of_ab", &a0.0, (d_c - 0.5 * d_ab).abs() / lim, d_ab != 0.0, || format!("{}: association part with one C site = {d_c:e}, half of the 1A/1B association part = {:e}", a0.0, 0.5 * d_ab));
+    }
+}
+
 /// Peng-Robinson pressure vs the textbook closed form written here in SI units
 fn pr_case(c: &(usize, f64, f64, f64), rec: &mut Rec) {
     let (n, tf, eta, kij) = *c;
@@ -353,6 +384,17 @@ pub fn run(ctx: &mut Ctx) {
         }
     }
     ctx.run(&ac, |c| format!("assoc|{}|T={}|eta={}", c.0, c.2, c.3), assoc_case);
+    let mut cs = vec![];
+    for model in ["pcsaft", "saftvrmie"] {
+        for &tf in &t_factors(tier) {
+            for &eta in &eta_factors(tier) {
+                if eta >= 1e-3 {
+                    cs.push((model.to_string(), tf, eta));
+                }
+            }
+        }
+    }
+    ctx.run(&cs, |c| format!("csite|{}|T={}|eta={}", c.0, c.1, c.2), csite_case);
     let mut pc = vec![];
     for n in 1..=3usize {
         for &tf in &t_factors(tier) {
